@@ -68,15 +68,23 @@ def objcBoxOf (typename : String) : String := if objcClassType typename then typ
 /-- C++/CLI value types (no `^`) are the arithmetic types, `bool` and `System::DateTime` -/
 def cliValueTypes : List String := ["bool", "char", "short", "int", "__int64", "float", "double", "System::DateTime"]
 
+/-- the Java spelling of a built-in carries no type arguments of its own (collections get theirs from the reference) -/
+def jtNoArgs : JType → Bool
+  | .cls _ _ args => args.isEmpty
+  | _ => true
+
 /-- Java: the live spellings are those of the reference table, the translator's parse is faithful, and
     `boxed` is the box of `typename` -/
 def Builtin.javaOK (b : Builtin) : Bool :=
   printJ b.javaJ == b.javaTypename && printJ b.javaBoxedJ == b.javaBoxed &&
-  b.javaTypename == printJ (refRow b).java && b.javaBoxed == printJ (boxOf (refRow b).java)
+  b.javaTypename == printJ (refRow b).java && b.javaBoxed == printJ (boxOf (refRow b).java) &&
+  jtNoArgs b.javaJ && jtNoArgs b.javaBoxedJ && jtNoArgs (refRow b).java
 
 /-- JNI descriptors and the native C type are those of the Java types -/
 def Builtin.jniOK (b : Builtin) : Bool :=
-  b.jniSig == desc b.javaJ && b.jniBoxedSig == desc b.javaBoxedJ && b.jniTypename == jniCType b.javaJ
+  b.jniSig == desc b.javaJ && b.jniBoxedSig == desc b.javaBoxedJ && b.jniTypename == jniCType b.javaJ &&
+  -- the boxed form travels as `jobject`, except strings and byte arrays (which are their own box)
+  jniCType b.javaBoxedJ == (if b.jniTypename == "jstring" || b.jniTypename == "jbyteArray" then b.jniTypename else "jobject")
 
 /-- C++: reference spelling; passed by value iff arithmetic / bool -/
 def Builtin.cppOK (b : Builtin) : Bool :=
@@ -89,5 +97,55 @@ def Builtin.objcOK (b : Builtin) : Bool :=
 /-- C++/CLI: reference spelling; handle (`^`) iff not a value type -/
 def Builtin.cliOK (b : Builtin) : Bool :=
   b.cliTypename == (refRow b).cli && b.cliReference == !cliValueTypes.contains b.cliTypename
+
+end Pydjinni.Gen
+
+namespace Pydjinni.Gen
+
+mutual
+/-- every built-in row mentioned in a type reference (at any depth, including function signatures) satisfies `p` -/
+def RType.builtinsAll (p : Builtin → Bool) : RType → Bool
+  | .mk d args _ => TDef.builtinsAll p d && builtinsAllL p args
+def TDef.builtinsAll (p : Builtin → Bool) : TDef → Bool
+  | .builtin b => p b
+  | .user _ => true
+  | .func _ _ _ params ret => builtinsAllL p params && builtinsAllO p ret
+def builtinsAllL (p : Builtin → Bool) : List RType → Bool
+  | [] => true
+  | t :: ts => RType.builtinsAll p t && builtinsAllL p ts
+def builtinsAllO (p : Builtin → Bool) : Option RType → Bool
+  | none => true
+  | some t => RType.builtinsAll p t
+end
+
+def TDef.isBuiltin : TDef → Bool
+  | .builtin _ => true
+  | _ => false
+
+mutual
+/-- generic arguments are only written on built-in (collection) types — what the front end's arity rule guarantees -/
+def RType.genericsOk : RType → Bool
+  | .mk d args _ => (args.isEmpty || d.isBuiltin) && TDef.genericsOk d && genericsOkL args
+def TDef.genericsOk : TDef → Bool
+  | .builtin _ => true
+  | .user _ => true
+  | .func _ _ _ params ret => genericsOkL params && genericsOkO ret
+def genericsOkL : List RType → Bool
+  | [] => true
+  | t :: ts => RType.genericsOk t && genericsOkL ts
+def genericsOkO : Option RType → Bool
+  | none => true
+  | some t => RType.genericsOk t
+end
+
+def fieldsAll (q : RType → Bool) (fs : List FieldD) : Bool := fs.all (fun f => q f.ty)
+
+/-- every type written in the members of a declaration satisfies `q` -/
+def Decl.typesAll (q : RType → Bool) : Decl → Bool
+  | .enum _ _ | .flags _ _ => true
+  | .record _ fields _ _ => fieldsAll q fields
+  | .interface _ ms => ms.all (fun m => fieldsAll q m.params && (match m.ret with | some r => q r | none => true))
+  | .function _ _ params ret _ => fieldsAll q params && (match ret with | some r => q r | none => true)
+  | .error _ codes => codes.all (fun k => fieldsAll q k.params)
 
 end Pydjinni.Gen
